@@ -12,10 +12,13 @@ pub const ENCODER_REFUSES: &[u8] = b"\xff\xfeREFUSE";
 #[derive(Clone, Copy, Debug, Default)]
 pub struct RawCodec {
     pub bs: Option<(usize, usize)>,
+    /// opt-in: the encoder refuses messages that start with `ENCODER_REFUSES` (only C06's probe sets it; payloads
+    /// of other checks are arbitrary bytes and must never be refused)
+    pub refuse: bool,
 }
 impl RawCodec {
     pub fn with(buffer_size: usize, yield_threshold: usize) -> Self {
-        Self { bs: Some((buffer_size, yield_threshold)) }
+        Self { bs: Some((buffer_size, yield_threshold)), refuse: false }
     }
     fn settings(&self) -> BufferSettings {
         match self.bs {
@@ -25,7 +28,7 @@ impl RawCodec {
     }
 }
 #[derive(Clone, Copy, Debug)]
-pub struct RawEnc(BufferSettings);
+pub struct RawEnc(BufferSettings, bool);
 #[derive(Clone, Copy, Debug)]
 pub struct RawDec(BufferSettings);
 
@@ -35,7 +38,7 @@ impl Codec for RawCodec {
     type Encoder = RawEnc;
     type Decoder = RawDec;
     fn encoder(&mut self) -> RawEnc {
-        RawEnc(self.settings())
+        RawEnc(self.settings(), self.refuse)
     }
     fn decoder(&mut self) -> RawDec {
         RawDec(self.settings())
@@ -46,7 +49,7 @@ impl Encoder for RawEnc {
     type Error = Status;
     fn encode(&mut self, item: RawMsg, dst: &mut EncodeBuf<'_>) -> Result<(), Status> {
         // a codec may refuse a message (validation); whatever it had written by then must not go out
-        if item.starts_with(ENCODER_REFUSES) {
+        if self.1 && item.starts_with(ENCODER_REFUSES) {
             dst.put_slice(b"partial output of a failing encoder");
             return Err(Status::data_loss("encoder refuses this message"));
         }
